@@ -78,17 +78,37 @@ Contradictions(o) ==
     <<"loom2-only-ranks", Mut(Mut(c, e, "rank", 0), e, "nranks", 4)>>,
     <<"reverse-cpu-order", Mut(c, g, "cpus", <<<<0, 20>>>>)>>}
 
+\* ---- second family: three looms with rank information on any subset of them (mixed: looms are
+\* ordered by name, the processes of a ranked loom by rank, of an unranked loom by pid), in every
+\* processing order.  PID order and rank order differ in looms 1 and 3.
+Slots3 == <<[l |-> 1, p |-> 40, t |-> 11], [l |-> 1, p |-> 30, t |-> 21], [l |-> 2, p |-> 50, t |-> 31],
+            [l |-> 3, p |-> 70, t |-> 41], [l |-> 3, p |-> 60, t |-> 51]>>
+Rank3(p) == CASE p = 40 -> 0 [] p = 30 -> 1 [] p = 50 -> 2 [] p = 70 -> 3 [] p = 60 -> 4
+BuildMixed(R, ord) ==
+   LET rec(i) == LET sl == Slots3[i] IN
+          M(sl.l, sl.p, sl.t, sl.p \div 10,
+            IF sl.l \in R THEN Rank3(sl.p) ELSE -1, IF sl.l \in R THEN 5 ELSE 0,
+            IF i \in {1, 3, 4} THEN <<<<0, 10 * sl.l>>>> ELSE <<>>)
+   IN [k \in 1..5 |-> rec(ord[k])]
+MixedOrders == IF WithOrders THEN Perms(5)
+               ELSE {<<1, 2, 3, 4, 5>>, <<5, 4, 3, 2, 1>>, <<3, 5, 1, 4, 2>>, <<4, 5, 3, 1, 2>>, <<3, 1, 2, 4, 5>>,
+                     <<2, 1, 3, 5, 4>>, <<4, 1, 3, 2, 5>>, <<3, 4, 1, 5, 2>>}
+
 \* two-level enumeration (so that TLC's workers share the work): the initial
 \* states choose who carries app / rank, the step chooses CPU lists and order
 Init == /\ S = <<>>
         /\ \/ \E a \in AppChoices, r \in RankChoices : tag = <<"seed", a, r>>
            \/ tag = <<"seed-contradictions">>
+           \/ (~Tiny /\ tag = <<"seed-mixed">>)
 Next == \/ /\ tag[1] = "seed"
            /\ \E d1 \in CpuDist(1), d2 \in CpuDist(2), rev \in BOOLEAN, o \in Orders :
                  S' = Build(tag[2], tag[3], d1, d2, rev, o)
            /\ tag' = <<"valid">>
         \/ /\ tag[1] = "seed-contradictions"
            /\ \E o \in Orders : \E x \in Contradictions(o) : S' = x[2] /\ tag' = <<x[1]>>
+        \/ /\ tag[1] = "seed-mixed"
+           /\ \E R \in SUBSET {1, 2, 3}, o \in MixedOrders : S' = BuildMixed(R, o)
+           /\ tag' = <<"mixed">>
 Spec == Init /\ [][Next]_vars
 IsSeed == S = <<>>
 
@@ -101,6 +121,14 @@ HasRanks == \E i \in 1..Len(S) : S[i].rank # -1
 RowsIndependent ==
    (~IsSeed /\ tag = <<"valid">>) =>
       LET c == Canon(<<1, 2, 3, 4, 5>>, IF HasRanks THEN {1, 3, 5} ELSE {}) IN
+      /\ Expected(S).trows = Expected(c).trows
+      /\ Expected(S).crows = Expected(c).crows
+
+MixedAccepted == (~IsSeed /\ tag = <<"mixed">>) => Expected(S).verdict = "ok"
+MixedRowsIndependent ==
+   (~IsSeed /\ tag = <<"mixed">>) =>
+      LET R == {S[i].loom : i \in {j \in 1..Len(S) : S[j].rank # -1}}
+          c == BuildMixed(R, <<1, 2, 3, 4, 5>>) IN
       /\ Expected(S).trows = Expected(c).trows
       /\ Expected(S).crows = Expected(c).crows
 
